@@ -30,9 +30,10 @@ TRUSTED = [
     "float64 tolerance of DESIGN.md section 3 (1 ns + D*2^-40 on instants, relative 2^-40 on the integral before rounding down)",
     "correspondence harness harness/cmd/hC01 (real schedule.NewConstConf/NewLineConf/NewStepConf/NewOnceConf, Start, Next, Left)",
     "float64 rounding: PROVED within the driver's tolerance (Properties/C01_float.v, Flocq binary64 = FLT(-1074,53), round to nearest even) for "
-    "const profiles (instants and count, rate = configured rational rounded once to float64, guard 2^-20 <= ops <= 2^40, D <= 2^62, k < 2^53) and "
-    "for increasing lines with binary64 rates (instants incl. the cancellation term D*kappa*2^-48, count; slope guard 2^-40 <= a <= 2^50); "
-    "decreasing lines, lines whose rates are not binary64 numbers, and step levels accumulated by float additions stay modelled in exact "
+    "const profiles (instants and count, rate = configured rational rounded once to float64, guard 2^-20 <= ops <= 2^40, D <= 2^62, k < 2^53), for "
+    "the count of every non-flat line with binary64 rates, for the instants of increasing lines (incl. the cancellation term D*kappa*2^-48; slope guard "
+    "2^-40 <= |a| <= 2^50) and for the instants of decreasing lines while (from/rate(x))*from/(from-to) <= c, 3c <= 1020 + 4*kappa; the late operations "
+    "of steep decreasing lines, lines whose rates are not binary64 numbers, and step levels accumulated by float additions stay modelled in exact "
     "arithmetic with the tolerance measured by the correspondence run only",
     "modelled, not verified: int64 overflow of token counts beyond 2^63 (C01_float bounds the converted values inside int64 under I <= 2^62); "
     "do_at.go / step.go loop / composite sequencing are hand-modelled (tied by the correspondence run, the step loop header also by the translator)",
@@ -43,8 +44,9 @@ ASSUMPTIONS = [
     "go_float64_correctly_rounded: every Go float64 operation of const.go/line.go (* / + - math.Sqrt, int64->float64) is the real operation rounded "
     "to the nearest binary64 number, ties to even, one rounding per source operation (no fused multiply-add: amd64 at the default GOAMD64 level); "
     "float64->int64/Duration truncates toward zero. Under it the float64 evaluation is proved to stay within 1 ns + D*2^-40 (+ D*kappa*2^-48 for "
-    "increasing lines) of the exact value and the count within relative 2^-40 of the integral (Properties/C01_float.v); for decreasing lines the "
-    "same tolerance is measured on every run, not proved",
+    "lines) of the exact value and the count within relative 2^-40 of the integral (Properties/C01_float.v: const, line counts, increasing-line instants, "
+    "decreasing-line instants under the stated conditioning); for the late operations of steep decreasing lines the same tolerance is measured on every "
+    "run, not proved",
     "sync/atomic counter of doAtSchedule is linearizable (token k is handed out once; concurrency is property C02)",
 ]
 
